@@ -13,6 +13,20 @@ pub enum Pos {
     L(i32),
     /// usize::MAX - delta
     M(u8),
+    /// capacity() + delta of the arena-backed container at the moment the op starts (an index or
+    /// target length derived from an earlier result: "resize to exactly what was reserved")
+    C(i8),
+    /// capacity() - len() + delta (an amount: "reserve exactly the slack, or one more")
+    S(i8),
+}
+
+thread_local! {
+    /// spare capacity (capacity - len) of the arena-backed container the current op addresses;
+    /// 0 for zero-sized elements. Set by the client before it resolves positions.
+    static CUR_SPARE: std::cell::Cell<usize> = const { std::cell::Cell::new(0) };
+}
+pub fn set_spare(n: usize) {
+    CUR_SPARE.with(|c| c.set(n));
 }
 impl Pos {
     pub fn at(&self, len: usize) -> usize {
@@ -20,6 +34,8 @@ impl Pos {
             Pos::A(n) => n,
             Pos::L(d) => (len as i64 + d as i64).max(0) as usize,
             Pos::M(d) => usize::MAX - d as usize,
+            Pos::C(d) => (len as i64 + CUR_SPARE.with(|c| c.get()).min(1 << 20) as i64 + d as i64).max(0) as usize,
+            Pos::S(d) => (CUR_SPARE.with(|c| c.get()).min(1 << 20) as i64 + d as i64).max(0) as usize,
         }
     }
 }
